@@ -59,18 +59,20 @@ def fullEntry (w : Vec) (D : Mat) (k : Nat) (i j : Nat) : Rat :=
 def assembleFull (w : Vec) (D : Mat) (k : Nat) : Mat :=
   tab (w.size + D.size + 1) (w.size + D.size + 1) (fullEntry w D k)
 
-/-- entries of `eliminate_flux`: Schur complement on the diagonal flux block, read off the given matrix exactly
-as the code does (`jacobian.diagonal()[flux_slice]`, `D = jacobian[reduced, flux]`) -/
-def redEntry (full : Mat) (nf : Nat) (i j : Nat) : Rat :=
-  full.get (nf + i) (nf + j) +
-    sumTo nf fun e => full.get (nf + i) e * (1 / full.get e e) * full.get (nf + j) e
-def redRhsEntry (full : Mat) (rhs : Vec) (nf : Nat) (i : Nat) : Rat :=
-  rhs.getD (nf + i) 0 - sumTo nf fun e => full.get (nf + i) e * (1 / full.get e e) * rhs.getD e 0
+/-- entries of `eliminate_flux`: Schur complement on the diagonal flux block. As in the code, ONLY the diagonal
+(`jacobian.diagonal()[flux_slice]`) is read from the matrix handed in; the divergence/multiplier block `self.D`, its
+transpose `self.DT` and the constant sub-block `self.jacobian_subblock` are the ones CACHED at setup from `darcy_init`
+(`cache`, of which only the blocks outside the flux-flux block are used). -/
+def redEntry (cache full : Mat) (nf : Nat) (i j : Nat) : Rat :=
+  cache.get (nf + i) (nf + j) +
+    sumTo nf fun e => cache.get (nf + i) e * (1 / full.get e e) * cache.get (nf + j) e
+def redRhsEntry (cache full : Mat) (rhs : Vec) (nf : Nat) (i : Nat) : Rat :=
+  rhs.getD (nf + i) 0 - sumTo nf fun e => cache.get (nf + i) e * (1 / full.get e e) * rhs.getD e 0
 
 /-- `eliminate_flux`: `(reduced matrix, reduced rhs, W⁻¹)` -/
-def eliminateFlux (full : Mat) (rhs : Vec) (nf : Nat) : Mat × Vec × Vec :=
-  let m := full.size - nf
-  (tab m m (redEntry full nf), tabV m (redRhsEntry full rhs nf), tabV nf fun e => 1 / full.get e e)
+def eliminateFlux (cache full : Mat) (rhs : Vec) (nf : Nat) : Mat × Vec × Vec :=
+  let m := cache.size - nf
+  (tab m m (redEntry cache full nf), tabV m (redRhsEntry cache full rhs nf), tabV nf fun e => 1 / full.get e e)
 
 /-- index of the reduced system → index of the unreduced one (skips `k`) -/
 def up (k i : Nat) : Nat := if i < k then i else i + 1
@@ -87,10 +89,10 @@ def eliminateMultiplier (red : Mat) (rr : Vec) (k : Nat) : Except Err (Mat × Ve
   if r > 1 / 1000000 ∨ r < - (1 / 1000000) then .error .notImpl
   else .ok (dropRowCol red k, dropVec rr k)
 
-/-- `compute_flux_update`: `W⁻¹ (g + Dᵀ-part · (p, lam))`, `DT = full[nf:, :nf]ᵀ`; `y` is the reduced solution -/
-def fluxEntry (full : Mat) (rhs : Vec) (y : Vec) (nf : Nat) (e : Nat) : Rat :=
-  (1 / full.get e e) * (rhs.getD e 0 + sumTo (full.size - nf) fun i => full.get (nf + i) e * y.getD i 0)
-def fluxUpdateV (full : Mat) (rhs : Vec) (y : Vec) (nf : Nat) : Vec := tabV nf (fluxEntry full rhs y nf)
+/-- `compute_flux_update`: `W⁻¹ (g + Dᵀ-part · (p, lam))` with the CACHED `DT` and `W⁻¹` from the matrix handed in; `y` is the reduced solution -/
+def fluxEntry (cache full : Mat) (rhs : Vec) (y : Vec) (nf : Nat) (e : Nat) : Rat :=
+  (1 / full.get e e) * (rhs.getD e 0 + sumTo (cache.size - nf) fun i => cache.get (nf + i) e * y.getD i 0)
+def fluxUpdateV (cache full : Mat) (rhs : Vec) (y : Vec) (nf : Nat) : Vec := tabV nf (fluxEntry cache full rhs y nf)
 
 /-- scatter the pure-pressure solution into `(p, lam)`: `p_k = 0`, `lam = 0` -/
 def scatter (y : Vec) (k nc : Nat) : Vec :=
@@ -118,35 +120,43 @@ def solveLin (a : Mat) (b : Vec) : Option Vec := Id.run do
           m := m.modify r fun row => row.zipWith (fun x y => x - f * y) rowN
   return some (m.map fun row => row.getD n 0)
 
+/-- the inner solve of the model with its result CHECKED in exact arithmetic: a vector is returned only if it has the
+right size and satisfies `M y = b` (so soundness of the model's formulations needs no assumption about Gauss–Jordan) -/
+def solveChecked (M : Mat) (b : Vec) : Option Vec :=
+  match solveLin M b with
+  | some y => if y.size = M.size ∧ mulVec M y = b then some y else none
+  | none => none
+
 inductive Form | full | fluxReduced | pressure
   deriving DecidableEq, Repr
 
-/-- the three branches of `linear_solve(matrix, rhs, previous_solution)` with an exact inner solver.
+/-- the three branches of `linear_solve(matrix, rhs, previous_solution)` with an exact (checked) inner solver; `cache` is
+the setup-time matrix `darcy_init` whose off-diagonal blocks the reduced formulations reuse.
 `prevPk` is `previous_solution[num_faces + k]` when a previous solution is passed. -/
-def linearSolve (form : Form) (full : Mat) (rhs : Vec) (nf k : Nat) (prevPk : Option Rat := none) :
+def linearSolve (form : Form) (cache full : Mat) (rhs : Vec) (nf k : Nat) (prevPk : Option Rat := none) :
     Except Err Vec :=
   match form with
-  | .full => match solveLin full rhs with
+  | .full => match solveChecked full rhs with
     | some x => .ok x
     | none => .error .other
   | .fluxReduced =>
-    let (red, rr, _) := eliminateFlux full rhs nf
-    match solveLin red rr with
+    let (red, rr, _) := eliminateFlux cache full rhs nf
+    match solveChecked red rr with
     | none => .error .other
-    | some y => .ok (fluxUpdateV full rhs y nf ++ y)
+    | some y => .ok (fluxUpdateV cache full rhs y nf ++ y)
   | .pressure =>
     if (match prevPk with | some v => decide (v > 1 / 1000000 ∨ v < -(1 / 1000000)) | none => false) then
       .error .notImpl
     else
-    let (red, rr, _) := eliminateFlux full rhs nf
+    let (red, rr, _) := eliminateFlux cache full rhs nf
     match eliminateMultiplier red rr k with
     | .error e => .error e
     | .ok (fr, frr) =>
-      match solveLin fr frr with
+      match solveChecked fr frr with
       | none => .error .other
       | some y =>
         -- scatter into the pressure dofs ≠ k; p_k and the multiplier stay zero
         let pl := scatter y k (red.size - 1)
-        .ok (fluxUpdateV full rhs pl nf ++ pl)
+        .ok (fluxUpdateV cache full rhs pl nf ++ pl)
 
 end Darsia.Saddle
